@@ -435,6 +435,40 @@ func (w *world) doOp(ti int, name string, op sim.Op) {
 				return
 			}
 		}
+	case "freeseg":
+		// free every allocated block of one segment (then a later segment may still
+		// hold allocations while an earlier one is completely free)
+		per := 8 * w.bs
+		if per <= 0 || w.expCount <= 0 {
+			return
+		}
+		seg := int(op.N) % max(1, w.expCount/per)
+		for idx := seg * per; idx < (seg+1)*per && idx < w.expCount; idx++ {
+			a := w.alloc[idx]
+			if a == nil || a.claimed || a.busy {
+				continue
+			}
+			a.claimed = true
+			c2 := e.Stamp()
+			w.inFl[name] = inflight{kind: "free", idx: idx}
+			err := w.bks.FreeBlock(idx)
+			delete(w.inFl, name)
+			out := classErr(err)
+			if out == "fault" && !w.faultIn[name] {
+				out = "error"
+			}
+			if err == nil && w.alloc[idx] == a {
+				delete(w.alloc, idx)
+			} else {
+				a.claimed = false
+				if out == "error" {
+					e.Violate("C17", "free_failed", "FreeBlock(%d) of an allocated block failed: %v", idx, err)
+					return
+				}
+			}
+			w.hist = append(w.hist, histOp{client: ti, kind: "free", idx: idx, out: out, call: c2, ret: e.Stamp()})
+		}
+		e.Logf("%s freeseg %d", name, seg)
 	case "snap":
 		w.snapshot(name)
 	}
